@@ -77,16 +77,16 @@ class Collector:
         self.distinct = {}
         self.evals = 0
 
-    def add(self, kind, n, i, extra, tsc, ok, branch, root, where):
+    def add(self, kind, n, i, extra, tsc, ok, branch, root, where, src=None):
         self.evals += 1
-        key = (kind, n, i, extra, tsc, ok, tuple(branch), root)
+        key = (kind, n, i, extra, tsc, ok, tuple(branch), root, tuple(src or range(1, n + 1)))
         if key not in self.distinct:
             self.distinct[key] = where
 
     def records(self):
         recs = []
-        for (kind, n, i, extra, tsc, ok, branch, root), where in self.distinct.items():
-            recs.append({'kind': kind, 'n': n, 'i': i, 'extra': extra, 'tsc': tsc, 'ok': ok,
+        for (kind, n, i, extra, tsc, ok, branch, root, src), where in self.distinct.items():
+            recs.append({'kind': kind, 'n': n, 'i': i, 'extra': extra, 'tsc': tsc, 'ok': ok, 'src': list(src),
                          'branch': [term(b) for b in branch], 'root': term(root), 'where': where})
         return recs
 
@@ -122,7 +122,9 @@ def pure_answers(col, N):
 async def run_ops(ops, N, col, query_lens, hash_func=shash, leaves=None):
     '''Replay an op sequence on a real MerkleCache; returns per-op projections.'''
     from electrumx.lib.merkle import Merkle, MerkleCache
-    src = leaves or [leaf(k) for k in range(1, N + 1)]
+    ids = list(range(1, N + 1))
+    gen = 0
+    src = list(leaves) if leaves else [leaf(k) for k in ids]
 
     async def source(start, count):
         return src[start:start + count]
@@ -138,10 +140,16 @@ async def run_ops(ops, N, col, query_lens, hash_func=shash, leaves=None):
                 await cache.branch_and_root(a, 0)
             else:
                 cache.truncate(a)
+                if op.get('chg'):
+                    # the source changes beyond the truncation point (a reorganisation)
+                    gen += 1
+                    for k in range(a, N):
+                        ids[k] = k + 1 + 100 * gen
+                        src[k] = leaf(ids[k]) if hash_func is shash else hash_func(src[k] + b'%d' % gen)
             err = None
         except Exception as e:
             err = repr(e)
-        st = {'op': op['op'], 'a': a}
+        st = {'op': op['op'], 'a': a, 'chg': bool(op.get('chg'))}
         if hash_func is shash:
             st.update({'len': cache.length, 'dh': cache.depth_higher, 'level': [term(x) for x in cache.level]})
         if err:
@@ -158,23 +166,24 @@ async def run_ops(ops, N, col, query_lens, hash_func=shash, leaves=None):
                 except Exception as e:
                     branch, root, ok = [], b'*', False
                 if hash_func is shash:
-                    col.add('cache', n, i, 0, tsc, ok, branch, root, {'ops': ops})
+                    col.add('cache', n, i, 0, tsc, ok, branch, root, {'ops': ops}, src=ids[:n])
                 else:
                     good = ok and my_fold(src[i], branch, i, hash_func) == root == my_root(src[:n], hash_func)
                     col.evals += 1
                     if not good:
-                        col.distinct[('sha', n, i, 0, tsc, False, (), b'*')] = {'ops': ops}
+                        col.distinct[('sha', n, i, 0, tsc, False, (), b'*', ())] = {'ops': ops}
     return steps
 
 
 def check(pid, tier, seed):
     out = Outcome(pid, tier, seed, 'model_checking')
     quick = tier == 'quick'
-    N = 16 if quick else 33
-    NM = 20 if quick else 33
+    N = 8 if quick else 14
+    NM = 12 if quick else 20
+    G = 1 if quick else 2
     rng = random.Random(seed)
     with Scratch('c12') as sc:
-        sc.write('MC.cfg', f'CONSTANTS N = {NM} MaxOps = 8 Export = FALSE\nSPECIFICATION Spec\nVIEW View\n'
+        sc.write('MC.cfg', f'CONSTANTS N = {NM} MaxOps = 8 MaxGen = 2 Export = FALSE\nSPECIFICATION Spec\nVIEW View\n'
                  'INVARIANT PureOnce\nINVARIANT CacheOK\nINVARIANT Coherent\nCHECK_DEADLOCK FALSE\n')
         res = model_check(sc, 'MerkleCache', 'MC.cfg', timeout=3000)
         if res.violated:
@@ -185,7 +194,7 @@ def check(pid, tier, seed):
         out.notes.append(f'MerkleCache.tla N={NM}: {res.distinct} cache states, {res.generated} transitions; '
                          f'PureOK over all n<={NM}, i, paddings 0..2, both formats')
         # export every transition with a representative path
-        sc.write('MX.cfg', f'CONSTANTS N = {N} MaxOps = 8 Export = TRUE\nSPECIFICATION Spec\nVIEW View\n'
+        sc.write('MX.cfg', f'CONSTANTS N = {N} MaxOps = 8 MaxGen = {G} Export = TRUE\nSPECIFICATION Spec\nVIEW View\n'
                  'CHECK_DEADLOCK FALSE\n')
         res = run_tlc(sc, 'MerkleCache', 'MX.cfg', workers=1, timeout=3000)
         if not res.no_error:
@@ -208,7 +217,7 @@ def check(pid, tier, seed):
         nrand = 300 if quick else 3000
         for k in range(nrand):
             n0 = rng.randint(1, N)
-            ops = [{'op': 'init', 'a': n0}] + [{'op': rng.choice(['ext', 'trunc']), 'a': rng.randint(1, N)}
+            ops = [{'op': 'init', 'a': n0}] + [{'op': rng.choice(['ext', 'trunc']), 'a': rng.randint(1, N), 'chg': rng.random() < 0.5}
                                                 for _ in range(rng.randint(1, 10))]
             steps = loop.run_until_complete(run_ops(ops, N, col, [rng.randint(1, N) for _ in range(3)]))
             traces.append({'tid': len(traces) + 1, 'steps': steps, 'ops': ops})
